@@ -1143,3 +1143,71 @@ Proof.
   split; [vm_compute; reflexivity|]. split; [vm_compute; reflexivity|]. split; [vm_compute; reflexivity|].
   eexists _, _, _. split; [vm_compute; reflexivity|]. vm_compute. repeat split; reflexivity.
 Qed.
+
+(* ---- part 6: the migration hand-off end to end ------------------------------------------------ *)
+Lemma wf_settings_absorb k s r : k <> infoProxy -> wf_settings s = true -> wf_settings (absorb k s r) = true.
+Proof.
+  intros Hk Hs. destruct (absorbed_settings k s r Hk) as (A & B & C & D). cbv zeta in *.
+  unfold wf_settings in *. rewrite A, B, C, D.
+  apply andb_true_iff in Hs. destruct Hs as [Hs H4]. apply andb_true_iff in Hs. destruct Hs as [Hs H3].
+  rewrite Hs. cbn [andb]. unfold norm_kill. rewrite wf_kill_of_wire. cbn [andb].
+  destruct (s_work s) as [w|]; [|reflexivity]. cbn [norm_work_opt wf_work] in *. unfold norm_work.
+  destruct (work_empty w); [reflexivity | assumption].
+Qed.
+Lemma wf_settings_set_dev s m : wf_settings (set_dev s m) = wf_settings s.
+Proof. reflexivity. Qed.
+Lemma wf_machine_with_id m i : wf_machine m = true -> wf_id i = true -> wf_machine (with_id m i) = true.
+Proof.
+  unfold wf_machine, with_id. cbn [m_id m_system m_pid m_ppid m_user m_version m_host m_elev m_caps m_net].
+  intros H Hi. destruct (wf_id (m_id m)); [|discriminate]. rewrite Hi. exact H.
+Qed.
+
+(* MigrateProfile -> pipe -> LoadContext -> MvMigrate result -> server: the new process holds the
+   migrated ID as Session.ID AND as Device.ID, the key material, the settings (wire normal form) and
+   the proxy list of the old client; the server's view afterwards is the new client's: same device
+   (so Device.ID = the migrated ID) and the same settings *)
+Theorem migrate_identity old new0 localm srv :
+  wf infoMigrate old = true -> wf_machine localm = true ->
+  exists ns srv', migrate_exchange old new0 localm srv = Ok (ns, proxies_of true old, srv') /\
+    s_id ns = s_id old /\ m_id (s_dev ns) = s_id old /\ s_keys ns = s_keys old /\
+    s_jitter ns = s_jitter old /\ s_sleep ns = s_sleep old /\
+    s_kill ns = norm_kill (s_kill old) /\ s_work ns = norm_work_opt (s_work old) /\
+    s_dev srv' = s_dev ns /\ s_jitter srv' = s_jitter ns /\ s_sleep srv' = s_sleep ns /\
+    s_kill srv' = norm_kill (s_kill ns) /\ s_work srv' = norm_work_opt (s_work ns) /\
+    s_id srv' = s_id srv.
+Proof.
+  intros Hw Hm.
+  assert (Hparts : wf_id (s_id old) = true /\ wf_settings old = true).
+  { unfold wf in Hw. change (is_kind infoMigrate) with true in Hw. change (infoMigrate =? infoProxy) with false in Hw.
+    change (has_device infoMigrate) with false in Hw. change (infoMigrate =? infoMigrate) with true in Hw.
+    cbn [andb] in Hw. bools. split; assumption. }
+  destruct Hparts as (Hid & Hset).
+  pose proof (devinfo_roundtrip_flat infoMigrate old new0 Hw []) as Hr. rewrite app_nil_r in Hr.
+  set (s1 := absorb infoMigrate old new0) in *.
+  destruct (absorbed_identity infoMigrate old new0) as (_ & Hi & _ & _). destruct (Hi eq_refl) as (Hi1 & Hi2). fold s1 in Hi1, Hi2.
+  destruct (absorbed_settings infoMigrate old new0) as (A & B & C & D); [discriminate|]. fold s1 in A, B, C, D.
+  set (ns := set_dev s1 (with_id localm (s_id s1))).
+  assert (Hns : wf infoSyncMigrate ns = true).
+  { unfold wf. change (is_kind infoSyncMigrate) with true. change (infoSyncMigrate =? infoProxy) with false.
+    change (has_device infoSyncMigrate) with true. change (carries_proxy infoSyncMigrate) with false.
+    change (infoSyncMigrate =? infoMigrate) with false. cbn [andb]. rewrite !andb_true_r.
+    apply andb_true_iff. split.
+    - subst ns. cbn [set_dev s_dev]. apply wf_machine_with_id; [exact Hm | rewrite Hi1; exact Hid].
+    - subst ns. rewrite wf_settings_set_dev. subst s1. apply wf_settings_absorb; [discriminate | exact Hset]. }
+  pose proof (devinfo_roundtrip_flat infoSyncMigrate ns srv Hns []) as Hr2. rewrite app_nil_r in Hr2.
+  exists ns, (absorb infoSyncMigrate ns srv). split.
+  - unfold migrate_exchange, load_context. rewrite Hr. cbn [bind fst snd]. fold ns. rewrite Hr2. reflexivity.
+  - destruct (absorbed_settings infoSyncMigrate ns srv) as (A2 & B2 & C2 & D2); [discriminate|].
+    destruct (absorbed_identity infoSyncMigrate ns srv) as (Hd & _ & _ & Hk). destruct (Hk ltac:(discriminate)) as (Hk1 & _).
+    repeat split; try assumption; try (apply Hd; reflexivity).
+Qed.
+
+Lemma ex_migration :
+  wf infoMigrate ex_session = true /\ wf_machine (s_dev ex_receiver) = true /\
+  (exists ns srv', migrate_exchange ex_session ex_receiver (s_dev ex_receiver) ex_receiver = Ok (ns, proxies_of true ex_session, srv') /\
+     m_id (s_dev ns) = s_id ex_session /\ m_id (s_dev srv') = s_id ex_session /\ zlist_eqb (m_id (s_dev ex_receiver)) (s_id ex_session) = false /\
+     settings_eqb srv' ex_session = true /\ length (proxies_of true ex_session) = 1%nat).
+Proof.
+  split; [vm_compute; reflexivity|]. split; [vm_compute; reflexivity|].
+  eexists _, _. split; [vm_compute; reflexivity|]. vm_compute. repeat split; reflexivity.
+Qed.
